@@ -305,6 +305,35 @@ def install(E: Any) -> None:
         return V(f(v.t), STR)
     E.builtins["str"] = b_str
 
+    # ------------------------------------------------ clause-language map helpers
+    def b_dict_update(self: Any, n: ast.Call, st: Any) -> Any:
+        """dict_update(a, b): the map {**a, **b} (same symbol as the effect of a.update(b))"""
+        a = self.expr(n.args[0], st)
+        b = self.expr(n.args[1], st)
+        a, b = self.unify(a, b)
+        return self.map_update(a, b, st)
+    E.builtins["dict_update"] = b_dict_update
+
+    def b_dict_store(self: Any, n: ast.Call, st: Any) -> Any:
+        """dict_store(a, k, v): the map {**a, k: v}"""
+        a = self.expr(n.args[0], st)
+        k = self.coerce(self.expr(n.args[1], st), a.ty.key)
+        v = self.coerce(self.expr(n.args[2], st), a.ty.val)
+        return V(self.pre.mapf(a.ty, "store")(a.t, k.t, v.t), a.ty)
+    E.builtins["dict_store"] = b_dict_store
+
+    def b_maps_agree(self: Any, n: ast.Call, st: Any) -> Any:
+        """maps_agree(a, b): same keys, same value under every key (insertion order ignored)"""
+        a = self.expr(n.args[0], st)
+        b = self.expr(n.args[1], st)
+        a, b = self.unify(a, b)
+        ty = a.ty
+        has, get = self.pre.mapf(ty, "has"), self.pre.mapf(ty, "get")
+        k = z3.Const(f"mk${self.site()}", self.sort(ty.key))
+        return V(self.forall_pat([k], z3.And(has(a.t, k) == has(b.t, k), z3.Implies(has(a.t, k), get(a.t, k) == get(b.t, k))),
+                                 [has(a.t, k), has(b.t, k), get(a.t, k), get(b.t, k)]), BOOL)
+    E.builtins["maps_agree"] = b_maps_agree
+
     # ------------------------------------------------------------ list methods
     def m_dict_values(self: Any, obj: Any, n: ast.Call, st: Any) -> Any:
         ty = obj.ty
